@@ -78,6 +78,10 @@ def obligations(tier, ctx):
     for pat, cut, crlf in (((0, 0, False), (5, 2, True), (6, 3, False), (7, 1, False), (8, 2, False)) if tier == "quick" else ((0, 0, False), (0, 1, False), (0, 2, True), (0, 3, False), (0, 4, False), (5, 0, True), (5, 2, False), (4, 2, False), (1, 1, True), (6, 0, False), (7, 0, False), (8, 0, True), (6, 3, False), (7, 1, False), (8, 2, False))):
         obs.append(Ob(name=f"long_line_p{pat}_c{cut}{'_crlf' if crlf else ''}", params=[("k", "int")], pre=[f"0 <= k < {nsz}"], call=f"H.long_line(k, {pat}, {cut}, {crlf}, {llim})", backend="P", timeout=900,
                       family="(d) size: a line of c-1, c, c+1 characters (c: integer constants of the source and environment sizes), five ways of cutting it"))
+    from harness_sizes_n import N_TEXTS
+    for cut, crlf in (((1, False), (2, True)) if tier == "quick" else ((0, False), (1, False), (2, False), (1, True), (2, True))):
+        obs.append(Ob(name=f"text_line_c{cut}{'_crlf' if crlf else ''}", params=[("i", "int")], pre=[f"0 <= i < {N_TEXTS}"], call=f"H.text_line(i, {cut}, {crlf})", backend="P", timeout=600,
+                      family="(c) content corpus: a line whose JSON strings carry 'active' text raw (separators that str.splitlines honours, BOM, templates, JSON-looking text)"))
     from symcheck.runner import mirror
     obs += mirror(obs, r"^(routing_notmsg_req_d0|routing_trail_d0|notify_refused_notif_resp|legacy_pending_resp_req)$", "F", limit=(2 if tier == "quick" else None))
     return obs
